@@ -21,6 +21,8 @@ func init() {
 	vfRegister("VfC19_each", VfC19_each)
 	vfRegister("VfC19_pairs", VfC19_pairs)
 	vfRegister("VfC19_faulty", VfC19_faulty)
+	vfRegister("VfC19_suite", VfC19_suite)
+	vfRegister("VfC19_suiteRot", VfC19_suiteRot)
 }
 
 // ---------------------------------------------------------------------------
@@ -519,4 +521,43 @@ func VfC19_faulty() {
 	vfAssert(failed, "C19:test-written-for-a-requirement-fails-on-a-server-that-breaks-it")
 	vfReach("judged")
 	vfReach("end")
+}
+
+// vfSuiteRun: the WHOLE suite, test after test, on ONE long-lived server per server mode, in the order
+// start, start+step, start+2*step ... (indices modulo the suite size; step = -1 runs backwards).
+func vfSuiteRun(start, step int) {
+	vfConfigure()
+	n := len(TestSuite)
+	conns := map[bool]*vfConn{}
+	for k := 0; k < n; k++ {
+		i := ((start+k*step)%n + n) % n
+		ts := TestSuite[i]
+		mode := ts.In.RequiresDisallowedForwardReferences
+		if conns[mode] == nil {
+			conns[mode] = &vfConn{srv: vfNewServer(mode)}
+		}
+		failed := vfVerdict(conns[mode], ts)
+		vfAssert(failed == vfWantsFailure(ts), "C19:verdict-independent-of-the-tests-run-before")
+	}
+	vfReach("end")
+}
+
+// VfC19_suite: the whole suite on one long-lived server in file order and in reverse file order.
+func VfC19_suite() {
+	if vfBool("reverse") {
+		vfSuiteRun(len(TestSuite)-1, -1)
+	} else {
+		vfSuiteRun(0, 1)
+	}
+}
+
+// VfC19_suiteRot: the whole suite on one long-lived server in every rotation of the file order, forwards
+// and backwards (158 permutations; the set of all permutations is outside).
+func VfC19_suiteRot() {
+	start := vfInt("start", 0, len(TestSuite)-1)
+	if vfBool("reverse") {
+		vfSuiteRun(start, -1)
+	} else {
+		vfSuiteRun(start, 1)
+	}
 }
